@@ -60,6 +60,7 @@ type State struct {
 	callsN  string // ghost: number of dynamic function-value invocations
 	callsA  string // ghost: array Int -> Int (callee refs)
 	callsR  string // ghost: array Int -> Int (returned refs)
+	tr       map[string]string // activation-local trace of recorded static calls: "N" count, "F" callee ids, "A:key:j" args, "R:key:i" results
 	keepBase map[string]string
 	allocs   []string        // allocation constants created on this path
 	escaped  map[string]bool // ... whose address may be known to other code
@@ -75,6 +76,12 @@ func (s *State) clone() *State {
 	n.known = make(map[string]string, len(s.known))
 	for k, v := range s.known {
 		n.known[k] = v
+	}
+	if s.tr != nil {
+		n.tr = make(map[string]string, len(s.tr))
+		for k, v := range s.tr {
+			n.tr[k] = v
+		}
 	}
 	n.allocs = append([]string(nil), s.allocs...)
 	n.escaped = make(map[string]bool, len(s.escaped))
@@ -129,6 +136,9 @@ type VC struct {
 	heapSort map[string]string // key -> element sort
 	heapImm  map[string]bool
 	nfresh   int
+	recFns   []recFn
+	traceMacros map[string]bool
+	trSort   map[string]string
 	obligs   []*Oblig
 	notes    map[string]bool
 	paths    int
@@ -592,7 +602,9 @@ func (vc *VC) refFacts(st *State, v T, t types.Type) {
 	case SSlice:
 		vc.assume(st, and(app("<=", app("root", app("sarr", v.S)), st.mark),
 			app("<=", "0", app("soff", v.S)), app("<=", "0", app("slen", v.S)), app("<=", app("slen", v.S), app("scap", v.S)),
-			eq(app("root", app("sarr", v.S)), app("sarr", v.S))))
+			eq(app("root", app("sarr", v.S)), app("sarr", v.S)),
+			// a slice with capacity has a backing array
+			app("=>", app(">", app("scap", v.S), "0"), not(eq(app("sarr", v.S), "0")))))
 	case SIface:
 		vc.assume(st, app("<=", app("root", app("iref", v.S)), st.mark))
 	case SStr:
